@@ -1131,6 +1131,16 @@ func (e *CEnv) call(x *CExpr) CVal {
 			}
 		}
 		e.fail("ref() of %T", v.V)
+	case "rng":
+		// rng(a, o, n): the abstract byte string of n bytes of array a starting at o (what bytes(s) denotes)
+		a := e.Eval(x.Args[0])
+		at, ok := a.V.(*Term)
+		if !ok || at.Sort != byteArr {
+			e.fail("rng(): byte array expected")
+		}
+		o := e.indexTerm(e.Eval(x.Args[1]))
+		n := e.indexTerm(e.Eval(x.Args[2]))
+		return CVal{V: c.App("rng", UnintSort("Bytes"), at, o, n), G: &CType{Kind: "name", Name: "Bytes"}}
 	case "arr", "off":
 		// arr(s), off(s): the byte array and start offset behind a string / []byte / byte-array object
 		v := e.Eval(x.Args[0])
